@@ -110,7 +110,7 @@ def templates(tier, seed):
     for N in ((2,) if tier == "quick" else (0, 1, 2, 3)):
         for shape in ("frame_index", "series_index", "frame_multiindex"):
             for lazy in (False, True):
-                ts.append(Template(f"T4/{shape}/lazy={int(lazy)}/N={N}", t_index, (shape, N, dict(lazy=lazy)), twin="verdict"))
+                ts.append(Template(f"T4/{shape}/lazy={int(lazy)}/N={N}", t_index, (shape, N, dict(lazy=lazy)), twin="verdict" if N else None))
         for rd in ("exclude_first", "exclude_last"):
             ts.append(Template(f"T4/frame_index/rd={rd}/N={N}", t_index, ("frame_index", N, dict(rd=rd))))
         for iname, sname in (("i", "i"), ("i", "j"), (None, "j"), ("i", None)):
@@ -119,7 +119,7 @@ def templates(tier, seed):
             if shape == "groupby" and N < 1:
                 continue
             for lazy in (False, True):
-                ts.append(Template(f"T6/{shape}/lazy={int(lazy)}/N={N}", t_wide, (shape, N, dict(lazy=lazy)), twin="verdict"))
+                ts.append(Template(f"T6/{shape}/lazy={int(lazy)}/N={N}", t_wide, (shape, N, dict(lazy=lazy)), twin="verdict" if N else None))
         for kinds in ({"a": "int"}, {"b": "float"}, {"a": "str"}, {"a": "bool"}):
             tag = "+".join(f"{k}={x}" for k, x in kinds.items())
             ts.append(Template(f"T5/wrong_dtype/{tag}/N={N}", t_frame, (["a", "b"], False, False, N, {"kinds": dict(tmpl.KINDS, **kinds)})))
